@@ -82,6 +82,7 @@ type queuesInv struct {
 	releasedUnderChangedN int
 	catchUp               int
 	heldPlaced, notHeld   int
+	heldOptOutLongerN     int
 	prevReleased          map[string]bool
 	// model-owned registry: consensus addresses each operator has set and that have not been
 	// pruned / removed yet (independent of the chain's own "previous key" bookkeeping)
@@ -315,6 +316,9 @@ func (q *queuesInv) After(m *Machine, a *Action, o Outcome) error {
 			case oe != nil && !q.dueNowHas(oe.E):
 				// opting out: the undelegation matures together with the opt out
 				wantHold, E = 1, oe.E
+				if oe.E > b.Epoch+b.N {
+					q.heldOptOutLongerN++
+				}
 			case oe != nil:
 				// opt out matures at the end of this very block: nothing at stake any more
 			case of.Removing:
